@@ -7014,7 +7014,7 @@ fn eval_expr(
         }
         Expression_::Break => {
             *expr_state = ExpressionState::EvaluatedSubexpressions;
-            eval_break(env, expr_value_is_used);
+            eval_break(env);
         }
         Expression_::Continue => {
             *expr_state = ExpressionState::EvaluatedSubexpressions;
@@ -7279,7 +7279,7 @@ fn eval_block(env: &mut Env, expr_value_is_used: bool, block: &Block) {
     }
 }
 
-fn eval_break(env: &mut Env, expr_value_is_used: bool) {
+fn eval_break(env: &mut Env) {
     // Pop all the currently evaluating expressions until we are no
     // longer inside the innermost loop.
     //
@@ -7302,6 +7302,11 @@ fn eval_break(env: &mut Env, expr_value_is_used: bool) {
                     .exprs_to_eval
                     .push((ExpressionState::EvaluatedSubexpressions, Rc::clone(&expr)));
 
+                // Loops always evaluate to unit.
+                if expr.value_is_used {
+                    env.push_value(Value::unit());
+                }
+
                 break;
             }
             Expression_::ForIn(_, _, _) if is_running_loop => {
@@ -7319,6 +7324,11 @@ fn eval_break(env: &mut Env, expr_value_is_used: bool) {
                     .exprs_to_eval
                     .push((ExpressionState::EvaluatedSubexpressions, Rc::clone(&expr)));
 
+                // Loops always evaluate to unit.
+                if expr.value_is_used {
+                    env.push_value(Value::unit());
+                }
+
                 break;
             }
             Expression_::If(_, _, _) | Expression_::Match(_, _) | Expression_::Try(_, _, _) => {
@@ -7334,11 +7344,6 @@ fn eval_break(env: &mut Env, expr_value_is_used: bool) {
             }
             _ => {}
         }
-    }
-
-    // Loops always evaluate to unit.
-    if expr_value_is_used {
-        env.push_value(Value::unit());
     }
 }
 
